@@ -56,6 +56,14 @@ func C01(c *Ctx) {
 			if nterm > 4 && !r.Chance(1, 4) {
 				nterm = 2
 			}
+			// rarely: many terms (batching or chunking thresholds in an implementation sit at
+			// powers of two): just above 32, 64, 128
+			if r.Chance(1, 40) {
+				nterm = []int{33, 34, 40, 65, 70, 129}[r.Intn(6)]
+				if !c.Thorough() && nterm > 70 {
+					nterm = 65
+				}
+			}
 			special := r.Intn(6)
 			for j := 0; j < nterm; j++ {
 				scs = append(scs, r.Scalar())
